@@ -28,10 +28,10 @@ RULE = ('plans: exhaustive (start, width, shift) per STFT size (quick: 5 sizes, 
         'configuration incl. width=F, width=1, shift=width, 0 iterations; restoration: K 2..4, odd F 9..513, T 8..32, '
         'cosine <= 0.1, jitter <= 10 %, random permutation fields; non-trivial: K>=2, F>=3 and the returned mapping '
         'is not the identity (restoration: the injected field is not constant); distinct by SHA-1 of inputs and options')
-NOT_PROVED = ('that the signal domain (pairwise cosine <= 0.1, jitter <= 10 %) implies the diagonal dominance the '
-              'restoration theorems assume (jitter_dominance), and the DHTV clause (>= 70 % first-segment majority, '
-              '>= 2/3 overlap => consistent order): both are explored by the restoration predicate on every run; '
-              'binary64 rounding (exact mapping comparison on tie-free masks)')
+NOT_PROVED = ('the DHTV restoration clause (>= 70 % first-segment majority and >= 2/3 overlap => one class order in every '
+              'bin): explored by the restoration predicate on every run (DHTV identity on consistent masks is proved '
+              'given dominance of each bin against its segment centroid); binary64 rounding (the theorems are over '
+              'the reals / any ordered carrier; exact mapping comparison on tie-free masks)')
 ASSUMPTIONS = ['mask F equals stft_size // 2 + 1; F odd, K < 10 (asserted by the code); finite real masks']
 
 HB, HM = 1000003, 2305843009213693951
